@@ -682,6 +682,8 @@ def validate_names(nodes):
 
     for node in nodes:
         if isinstance(node, Include):
+            if re.search(r"[\x00-\x1f]", node.name):
+                raise ModelError("name of an included file holds a control character: %r" % node.name)
             continue
         if node.name in BUILTIN_SIZES:
             raise ModelError("'%s' is the name of a built-in type and cannot be defined" % node.name)
